@@ -140,6 +140,21 @@ func checkC10(tier string) int {
 						}
 						return []hist.TxSpec{gen.Build(c, "STAKE", gen.StakeMsg(flick, fmt.Sprint(target-cur+40)), "a candidate stakes in just above the line (and drops below the minimum in the next block)", &flick.Stake, gen.ConsAccount(flick))}
 					}
+				case 25, 26, 27, 41, 42, 43:
+					// ... and stakes in again as soon as the waiting time after its removal allows (the first of
+					// these attempts that is not refused comes exactly at the end of that waiting time)
+					if cur < min {
+						return []hist.TxSpec{gen.Build(c, "STAKE", gen.StakeMsg(flick, fmt.Sprint(min-cur+60)), "the removed candidate stakes in again at the first height the waiting time allows (directed)", &flick.Stake, gen.ConsAccount(flick))}
+					}
+				case 34:
+					// an active genesis validator takes out exactly its whole stake
+					for _, v := range wq.Vals {
+						if v.InGenesis && v != wq.Vals[0] {
+							if cur := gen.StakeOf(c.S, v.ValAddr).Int64(); cur > 0 {
+								return []hist.TxSpec{gen.Build(c, "UNSTAKE", &staking.Unstake{ValidatorAddress: v.ValAddr, StakeAddress: v.Stake.Addr, Stake: txb.Amt("OLT", fmt.Sprint(cur))}, "an active validator unstakes exactly its whole stake", &v.Stake, gen.ConsAccount(v))}
+							}
+						}
+					}
 				case 23, 39:
 					if cur >= min {
 						return []hist.TxSpec{gen.Build(c, "UNSTAKE", &staking.Unstake{ValidatorAddress: flick.ValAddr, StakeAddress: flick.Stake.Addr, Stake: txb.Amt("OLT", fmt.Sprint(cur-min+1))}, "the candidate elected in the previous block unstakes to just below the minimum", &flick.Stake, gen.ConsAccount(flick))}
@@ -155,7 +170,7 @@ func checkC10(tier string) int {
 			if c.H%16 >= 9 {
 				var keep []hist.TxSpec
 				for _, s := range specs {
-					if !stakeKinds[s.Kind] {
+					if !stakeKinds[s.Kind] || strings.Contains(s.Note, "(directed)") {
 						keep = append(keep, s)
 					}
 				}
